@@ -303,7 +303,17 @@ func (s *Syncer) walkFetch(ctx context.Context, rootCid cid.Cid, sel selector.Se
 	return traversalOrder, nil
 }
 
-func (s *Syncer) fetch(ctx context.Context, rsrc string, cb func(io.Reader) error) error {
+func (s *Syncer) fetch(ctx context.Context, rsrc string, cb func(io.Reader) error) (err error) {
+	// If this fetch falls back to the legacy URL without the IPNI path and
+	// still fails, then the publisher is not a legacy publisher. Restore the
+	// IPNI path so that the failure does not break every later fetch.
+	var fellBack bool
+	defer func() {
+		if fellBack && err != nil {
+			s.rootURL = *s.rootURL.JoinPath(IPNIPath)
+			s.noPath = false
+		}
+	}()
 nextURL:
 	fetchURL := s.rootURL.JoinPath(rsrc)
 	var doneRetry bool
@@ -350,6 +360,7 @@ retry:
 			log.Warnw("Plain HTTP got not found response, retrying without IPNI path for legacy HTTP")
 			s.rootURL.Path = strings.TrimSuffix(s.rootURL.Path, strings.Trim(IPNIPath, "/"))
 			s.noPath = true
+			fellBack = true
 			goto nextURL
 		}
 		log.Errorw("Block not found from HTTP publisher", "resource", rsrc)
@@ -364,6 +375,7 @@ retry:
 			log.Warnw("Plain HTTP got forbidden response, retrying without IPNI path for legacy HTTP")
 			s.rootURL.Path = strings.TrimSuffix(s.rootURL.Path, strings.Trim(IPNIPath, "/"))
 			s.noPath = true
+			fellBack = true
 			goto nextURL
 		}
 		fallthrough
